@@ -613,11 +613,19 @@ func routeeName(index int, routerName string) string {
 
 func (x *router) availableRoutees() ([]*PID, bool) {
 	routees := make([]*PID, 0, x.poolSize)
+	pruned := false
 	for _, routee := range x.routeesMap {
 		if !routee.IsRunning() {
+			// a stopped routee no longer receives messages
 			delete(x.routeesMap, routee.ID())
+			pruned = true
+			continue
 		}
 		routees = append(routees, routee)
+	}
+	if pruned {
+		// keep the hash ring in sync with the routee set
+		x.rebuildHashRing()
 	}
 	return routees, len(routees) > 0
 }
